@@ -38,7 +38,7 @@ func (e *Engine) FrameKey() string {
 	var parts []string
 	for _, f := range e.frames {
 		ps := e.P.Fset.Position(f.Call.Pos())
-		parts = append(parts, fmt.Sprintf("%s@%d:%d", f.Fn.Name(), ps.Line, ps.Column))
+		parts = append(parts, fmt.Sprintf("%s@%d:%d", fnName(f.Fn), ps.Line, ps.Column))
 	}
 	return strings.Join(parts, ">")
 }
